@@ -537,6 +537,40 @@ func runC13(run *core.Run) {
 			checkObjectReuse(run, r, m) // edits m in place: last use of m
 		}
 	})
+	// two DIFFERENT models carrying the SAME id, one after the other (a model fetched, edited and reloaded keeps its
+	// id): what is answered for the second must be what is answered for it under an id nobody has seen - anything
+	// remembered under the id shows here
+	nid := run.N(800, 16000)
+	core.Parallel(nid, func(i int) {
+		r := run.Rng("c13-same-id", i)
+		opt := gen.ModelOpt{Conditions: r.Intn(2) == 0, Wildcards: 2, MaxObj: 3}
+		a, b := gen.Model(r, opt), gen.Model(r, opt)
+		shared := []string{"01HVMMBCMGZNT3SED4Z17ECXCA", "m", "01J0000000000000000000000B"}[i%3]
+		a.Id, b.Id = shared, shared
+		c := &core.Case{Kind: "same-id", Model: modelJSON(b), Extra: map[string]string{"first_model": modelJSON(a)}}
+		run.Guard(c, func() {
+			keys := func(m *openfgav1.AuthorizationModel) string {
+				k := wgKey(graph.NewWeightedAuthorizationModelGraphBuilder(), m)
+				if g, err := graph.NewAuthorizationModelGraph(m); err == nil {
+					k += "\n" + g.GetDOT()
+				} else {
+					k += "\nplain graph: " + err.Error()
+				}
+				d, err := transformer.TransformJSONProtoToDSL(m)
+				return k + "\n" + d + fmt.Sprint(err != nil)
+			}
+			fresh := gen.CloneExact(b)
+			fresh.Id = fmt.Sprintf("never-seen-%d-%d", run.Seed, i)
+			want := keys(fresh)
+			keys(a)
+			got := keys(b)
+			run.Eval(3)
+			run.Count("model_pairs_sharing_an_id", 1)
+			if got != want {
+				run.Violation("result-depends-on-an-earlier-model-with-the-same-id", c, clipStr(want, 2500), clipStr(got, 2500))
+			}
+		})
+	})
 	// large regular models (the computed ladder with 2^44 rewrite paths, a chain of 220 computed relations): every
 	// entry point still answers, and leaves them alone
 	for _, m := range []*openfgav1.AuthorizationModel{computedLadder(44), computedChain(220)} {
